@@ -73,6 +73,21 @@ def resolve_callback(prog, fi: FuncInfo, e: ast.AST, node: Node | None, depth: i
             if len(defs) == 1 and defs[0].kind == "assign" and defs[0].value is not None:
                 return resolve_callback(prog, fi, defs[0].value, defs[0].node, depth + 1)
         return None
+    if isinstance(e, ast.Lambda) and len(e.args.args) == 1 and not e.args.kwonlyargs and not e.args.vararg and isinstance(e.body, ast.Call):
+        # lambda m: helper(m, " ")  ==  partial(helper, sep=" ") with the match in the position the lambda passes it
+        lam_p = e.args.args[0].arg
+        inner = resolve_callback(prog, fi, e.body.func, node, depth + 1) if isinstance(e.body.func, (ast.Name, ast.Attribute)) else None
+        if inner is not None and inner.how == "function":
+            f = inner.func
+            from ..dataflow import bind_call as _bind
+
+            b = _bind(f, e.body)
+            mparams = [p for p, a in b.items() if isinstance(a, ast.Name) and a.id == lam_p]
+            if len(mparams) == 1:
+                bound = {p: _const_str(prog, fi, a) for p, a in b.items() if p != mparams[0]}
+                if all(v is not None for v in bound.values()):
+                    return Callback(f, mparams[0], bound, "partial")
+        return None
     if isinstance(e, ast.Attribute):
         # a bound method of an object of the package: obj.method
         rc = prog.receiver_class(fi, e.value)
